@@ -21,6 +21,8 @@ func init() {
 		ruleL5(c, "C06.L5")
 		ruleT3(c, "C06.L6")
 		ruleG4(c, "C06.L7")
+		ruleL8(c, "C06.L8")
+		ruleL9(c, "C06.L9")
 	}
 }
 
@@ -465,5 +467,127 @@ func ruleL5(c *Ctx, id string) {
 		}
 		R.Analysed[FuncName(f)] = true
 		R.Check(rel.Func(f), id, FuncName(f)+"|releases the locks on every path", P.Pos(f.Pos()), "every path through the terminator runs releaseInodes", "always-performs summary", "a path (e.g. a failed commit) returns with the transaction's inode locks still held: every later request on those inodes blocks for ever")
+	}
+}
+
+// rawAcquirers: who may lock an inode by number without the "free inodes are
+// given up at once" step of GetInodeInum, and why it is safe there.  CREATE
+// holds a directory and then locks the number the allocator hands it, whatever
+// its order; that is safe only because nobody else ever *waits* while holding
+// the lock of a free inode.
+var rawAcquirers = map[string]string{
+	"(*fstxn.FsTxn).GetInodeInum":     "the checked accessor itself: releases a free inode before it returns",
+	"(*fstxn.FsTxn).GetInodeInumFree": "wrapper of GetInodeLocked",
+	"(*fstxn.FsTxn).AllocInode":       "the number was just handed out by the allocator to this transaction",
+	"(*shrinker.ShrinkerSt).DoShrink": "first and only acquisition of its own transaction; the inode is pinned by its pending shrink",
+	"(*nfs.Nfs).getInodesLocked":      "the number was found under the locked directory's name and is larger than the directory's: the entry keeps the inode allocated",
+	"nfs.MakeNfs":                     "the root inode at start-up, before any request",
+}
+
+func ruleL8(c *Ctx, id string) {
+	V, P, R := c.V, c.P, c.R
+	R.Rule(id, "nobody waits while holding the lock of a free inode: the raw by-number acquirers (GetInodeLocked, GetInodeInumFree) are called only from the frozen sites where the number is known to name an allocated (or just allocated) inode; every other acquisition by number goes through GetInodeInum, which gives a free inode up at once", 5)
+	free := P.Func("fstxn.(*FsTxn).GetInodeInumFree")
+	if V.GetInodeLocked == nil || free == nil {
+		R.Fail(id, "vocabulary|raw acquirers", "", "GetInodeLocked and GetInodeInumFree exist", "not found")
+		return
+	}
+	for _, tgt := range []*ssa.Function{V.GetInodeLocked, free} {
+		for _, cs := range P.CallersOf(tgt) {
+			if !IsRepoFunc(cs.Caller) {
+				continue
+			}
+			owner := ownerOf(cs.Caller)
+			why, ok := rawAcquirers[FuncName(owner)]
+			R.Analysed[FuncName(owner)] = true
+			R.Check(ok, id, FuncName(owner)+"|raw acquisition "+tgt.Name(), P.Pos(cs.Instr.Pos()), "a frozen site: "+why, "listed", FuncName(owner)+" locks an inode by number without giving it up when it is free: it then waits for its next lock while holding a free inode, and a CREATE that holds that next inode (a directory) and is handed this free number by the allocator waits for it in turn - both hang although every transaction locks in ascending order")
+		}
+	}
+}
+
+// ruleL9: a request that finds its inode still shrinking aborts and tries
+// again.  The retry terminates only if something between the test and the next
+// attempt finishes the shrink: the request does the remaining work itself
+// (DoShrink).  The shrinker thread cannot be relied on - none is started for
+// a shrink that was pending at a crash.
+func ruleL9(c *Ctx, id string) {
+	V, P, R := c.V, c.P, c.R
+	R.Rule(id, "a retry on a pending shrink makes progress: on every cyclic path from the 'still shrinking' edge of an IsShrinking test back to that test the request runs shrinker.DoShrink itself (no shrinker thread exists for a shrink that was pending at a crash)", 2)
+	do := c.fn(id, "shrinker.(*ShrinkerSt).DoShrink")
+	if do == nil || V.IsShrinking == nil {
+		return
+	}
+	always := P.NewAlways(callTo(do))
+	n := 0
+	for _, fn := range P.RepoFuncs("nfs") {
+		if fn.Blocks == nil {
+			continue
+		}
+		for _, call := range P.CallsIn(fn, funcIs(V.IsShrinking)) {
+			cv, ok := call.(*ssa.Call)
+			if !ok {
+				continue
+			}
+			for _, b := range fn.Blocks {
+				ifi, ok := b.Instrs[len(b.Instrs)-1].(*ssa.If)
+				if !ok {
+					continue
+				}
+				cond := ifi.Cond
+				neg := false
+				for {
+					if u, ok := cond.(*ssa.UnOp); ok && u.Op == token.NOT {
+						cond, neg = u.X, !neg
+						continue
+					}
+					break
+				}
+				if cond != ssa.Value(cv) {
+					continue
+				}
+				shr := b.Succs[0]
+				if neg {
+					shr = b.Succs[1]
+				}
+				// does the shrinking side come back to the test at all?
+				back := false
+				free := false // ... without running DoShrink
+				seenAll := map[*ssa.BasicBlock]bool{}
+				var walk func(x *ssa.BasicBlock, avoid bool, seen map[*ssa.BasicBlock]bool) bool
+				walk = func(x *ssa.BasicBlock, avoid bool, seen map[*ssa.BasicBlock]bool) bool {
+					if seen[x] {
+						return false
+					}
+					seen[x] = true
+					if avoid {
+						for _, in := range x.Instrs {
+							if always.Instr(in) {
+								return false
+							}
+						}
+					}
+					if x == cv.Block() {
+						return true
+					}
+					for _, s := range x.Succs {
+						if walk(s, avoid, seen) {
+							return true
+						}
+					}
+					return false
+				}
+				back = walk(shr, false, seenAll)
+				if !back {
+					continue // not a retry: the shrinking case is answered, not repeated
+				}
+				n++
+				free = walk(shr, true, map[*ssa.BasicBlock]bool{})
+				R.Analysed[FuncName(fn)] = true
+				R.Check(!free, id, FuncName(ownerOf(fn))+"|retry on a pending shrink helps", P.Pos(cv.Pos()), "every path from the 'still shrinking' edge back to the test runs DoShrink", "no DoShrink-free cycle", "the request can go round the retry loop without finishing the shrink itself: after a crash in the middle of a large truncation no shrinker thread exists, and every WRITE/SETATTR/CREATE that meets the inode spins for ever")
+			}
+		}
+	}
+	if n == 0 {
+		R.Fail(id, "nfs|retry on a pending shrink", "", "the handlers that meet a shrinking inode retry (getShrink, getAlloc)", "no retry loop on IsShrinking found in package nfs")
 	}
 }
